@@ -26,13 +26,13 @@ theorem plain_roundtrip (slots : List (Option Nat)) (i : Nat) (rest : List Nat)
     | none =>
       simp only [encPlain, List.length_cons, entriesPlain, List.append_assoc]
       rw [le32_enc _ _ (by decide)]
-      simp only [ih', present, noEntry32]
+      simp only [ih', present, plainSkip, noEntry32]
       simp
     | some off =>
       have ho := h off (by simp)
       simp only [encPlain, List.length_cons, entriesPlain, List.append_assoc]
       rw [le32_enc _ _ (by omega)]
-      simp only [ih', present, noEntry32]
+      simp only [ih', present, plainSkip, noEntry32]
       have : off ≠ 4294967295 := by omega
       simp [this]
 
@@ -47,13 +47,13 @@ theorem offset16_roundtrip (slots : List (Option Nat)) (i : Nat) (rest : List Na
     | none =>
       simp only [encOffset16, List.length_cons, entriesOffset16, List.append_assoc]
       rw [le16_enc _ _ (by decide)]
-      simp only [ih', present, offsetFrom16, noEntry16]
+      simp only [ih', present, dense16Skip, dense16Offset, offsetFrom16, noEntry16]
       simp
     | some off =>
       have ho := h off (by simp)
       simp only [encOffset16, List.length_cons, entriesOffset16, List.append_assoc]
       rw [le16_enc _ _ (by omega)]
-      simp only [ih', present, offsetFrom16, noEntry16]
+      simp only [ih', present, dense16Skip, dense16Offset, offsetFrom16, noEntry16]
       have h1 : off / 4 ≠ 65535 := by omega
       have h2 : off / 4 * 4 = off := by omega
       have h3 : off ≠ 65535 := by omega
@@ -73,7 +73,7 @@ theorem sparse_roundtrip (pairs : List (Nat × Nat)) (rest : List Nat)
     rw [le16_enc _ _ hp.1]
     simp only []
     rw [le16_enc _ _ hp.2.2]
-    simp only [ih', List.map_cons]
+    simp only [ih', List.map_cons, sparseOffset]
     have : off / 4 * 4 = off := by omega
     simp [this]
 
